@@ -57,3 +57,36 @@ fn oversize_subscribe_registers_no_stream_and_ping_is_checked_too() {
     assert!(matches!(&*g.borrow(), Some(Err(e)) if e.contains("MaximumPacketSizeExceeded")));
     assert_eq!(b.run_result(), None);
 }
+
+#[test]
+fn a_later_connack_without_maximum_packet_size_lifts_the_limit_of_the_previous_connection() {
+    // MQTT 5.0 3.2.2.3.6: "If the Maximum Packet Size is not present, there is no limit on the packet size".
+    // First connection: the server announces 20 bytes; second connection of the SAME context: no limit announced.
+    let mut exec = Exec::new();
+    let (rx1, tx1) = (ScriptedRx::default(), RecordingTx::default());
+    let (rx2, tx2) = (ScriptedRx::default(), RecordingTx::default());
+    let (mut ctx, handle) = poster::Context::new();
+    let mut props = vec![39u8];
+    props.extend(20u32.to_be_bytes());
+    rx1.push(&connack(0, &props));
+    rx2.push(&connack(0, &[]));
+    let (r1, t1, r2, t2) = (rx1.clone(), tx1.clone(), rx2.clone(), tx2.clone());
+    let run = exec.spawn(async move {
+        ctx.set_up((r1, t1));
+        ctx.connect(poster::ConnectOpts::new()).await.map_err(|e| format!("connect 1: {:?}", e))?;
+        ctx.set_up((r2, t2));
+        ctx.connect(poster::ConnectOpts::new()).await.map_err(|e| format!("connect 2: {:?}", e))?;
+        errstr(ctx.run().await)
+    });
+    exec.settle();
+    tx2.take(); // CONNECT
+    let mut h = handle.clone();
+    let payload = [7u8; 64];
+    let p = exec.spawn(async move { errstr(h.publish(PublishOpts::new().topic_name("t").payload(&payload)).await) });
+    exec.settle();
+    assert_eq!(*p.borrow(), Some(Ok(())), "no limit was announced on this connection");
+    let w = frames(&tx2.take());
+    assert_eq!(w.len(), 1);
+    assert_eq!(w[0].len(), 2 + 3 + 1 + 64);
+    assert_eq!(*run.borrow(), None);
+}
